@@ -102,6 +102,7 @@ ENC_OUT = "payload-type byte other than 0xFE (it shares a word with the message 
 
 ENC_QUICK = [
     enc_shape([1], maxb=40), enc_shape([16], maxb=40), enc_shape([17], maxb=40), enc_shape([33], maxb=40),
+    enc_shape([32], maxb=40), enc_shape([48], maxb=40), enc_shape([31], maxb=40),   # exact multiples of the 16-byte segment capacity and one below
     enc_shape([16], maxb=40, minb=40), enc_shape([20], maxb=40, minb=30), enc_shape([8], [3], maxb=25 + 8), enc_shape([1], maxb=25),
     enc_shape([2], maxb=25), enc_shape([8], [0xFF]), enc_shape([8], [2]),
     enc_shape([8, 8]), enc_shape([8, 16]), enc_shape([8, 15]), enc_shape([8, 17]), enc_shape([4, 4, 16], maxb=80), enc_shape([8, 8], [1, 3]), enc_shape([8, 41]), enc_shape([41, 8]), enc_shape([8, 33]),
